@@ -5,10 +5,11 @@ import DadiVerif.Lemmas.LowPassDeepPops
 import DadiVerif.Lemmas.LowPassCont
 import DadiVerif.Lemmas.LowPassMixAll
 import DadiVerif.Lemmas.LowPassSim
+import DadiVerif.Lemmas.LowPassDeepEntry
 /-!
 # C18 — the low-pass calling model redistributes probability and vanishes at deep coverage
 
-Property theorems only (helpers: Lemmas/LowPass{Sums,Geno,Part,Mat,Cov,ND,Axis,Inb,Defined,Deep,DeepAxis,DeepPops,Cont,Count,Rep,HW,MixAll,Sim}.lean).
+Property theorems only (helpers: Lemmas/LowPass{Sums,Geno,Part,Mat,Cov,ND,Axis,Inb,Defined,Deep,DeepAxis,DeepPops,Cont,Count,Rep,HW,MixAll,Sim,DeepEntry}.lean).
 The definitions are the ones the driver executes (Model/LowPass.lean, namespace `DadiVerif.LowPass`), whose closed
 formulas are the *generated* `Gen.LowPass.*` (re-read from dadi/LowPass/LowPass.py on every run): `part`, `pw`
 (partitions zipped with their probabilities), `projEntry`/`projRow`, `hetErr`, `callEntry`, `nocall`,
@@ -477,6 +478,52 @@ theorem C18_F_lipschitz_genotype (p F : ℚ) (hp0 : 0 ≤ p) (hp1 : p ≤ 1) (hF
     |Gen.LowPass.inbP00 p F - (1 - p) ^ 2| ≤ F / 4 ∧ |Gen.LowPass.inbP01 p F - 2 * p * (1 - p)| ≤ F / 2 ∧
     |Gen.LowPass.inbP11 p F - p ^ 2| ≤ F / 4 :=
   inbP_lipschitz p F hp0 hp1 hF0 hF1
+
+/-! ## round 5: the deep-coverage bound, entry by entry -/
+
+/-- **Deep coverage, entry-wise, for the matrices the code builds, any number of populations.**  If every population is
+    well-formed, its coverage distribution sums to one, no depth below `D = deepDepth pops ≥ 2` has mass and the model spectrum
+    vanishes at the all-zero corner, then *every entry* of the corrected model is within
+    `(deepEntryBound pops + σ)·‖model‖₁` of the entry of the plain projection through `projection_matrix`, with
+    `deepEntryBound = ((1 + D) + Σ_p nsub_p)·2^{-D}` — (1 + D)·2^{-D} bounds the no-call probability of every polymorphic entry,
+    nsub_p·2^{-D} every entry of one population's `(prob_enough·projection)·calling_error` minus its projection matrix; σ bounds
+    the entries of a simulated table minus the projection row, only where entries are simulated.  (Sharper than the ℓ¹
+    theorem `C18_deep_coverage` read entry by entry, and at most the constant Σ_p (D + 2 + nsub_p)·2^{-D} that the harness used
+    to check heuristically.) -/
+theorem C18_deep_coverage_entrywise (pops : List Pop) (h : ∀ p ∈ pops, PopOk p ∧ lsum p.c = 1) (hD : 2 ≤ deepDepth pops)
+    (thr σ : ℚ) (hσ0 : 0 ≤ σ) (model : List ℕ → ℚ) (sim : List ℕ → List ℕ → ℚ)
+    (hcorner : ∀ i, (∀ k ∈ i, k = 0) → model i = 0)
+    (j : List ℕ) (hj : inBox ((axesOf pops).map (·.nOut)) j)
+    (hσ : ∀ i, inBox ((axesOf pops).map (·.nIn)) i → model i ≠ 0 →
+      Gen.LowPass.useSim (pncND (axesOf pops) i) thr = true → |sim i j - kerND (refAxesOf pops) i j| ≤ σ) :
+    |corrected (axesOf pops) thr model sim j - projected (refAxesOf pops) model j|
+      ≤ (deepEntryBound pops + σ) * sumBox ((axesOf pops).map (·.nIn)) (fun i => |model i|) :=
+  deep_entry_pops pops h hD thr σ hσ0 model sim hcorner j hj hσ
+
+/-- … and with `sim_threshold ≥ (1 + D)·2^{-D}` nothing on the support of the model is simulated: the entry-wise bound holds
+    with σ = 0, whatever the simulated tables are; the per-population ingredients: no-call ≤ (1 + D)·2^{-D} at every
+    polymorphic allele count -/
+theorem C18_deep_coverage_entrywise_analytic (pops : List Pop) (h : ∀ p ∈ pops, PopOk p ∧ lsum p.c = 1)
+    (hD : 2 ≤ deepDepth pops) (thr : ℚ)
+    (hthr : (1 + ((deepDepth pops : ℕ) : ℚ)) * (1 / 2) ^ (deepDepth pops) ≤ thr)
+    (model : List ℕ → ℚ) (sim : List ℕ → List ℕ → ℚ) (hcorner : ∀ i, (∀ k ∈ i, k = 0) → model i = 0)
+    (j : List ℕ) (hj : inBox ((axesOf pops).map (·.nOut)) j) :
+    |corrected (axesOf pops) thr model sim j - projected (refAxesOf pops) model j|
+      ≤ deepEntryBound pops * sumBox ((axesOf pops).map (·.nIn)) (fun i => |model i|) := by
+  have hdeep : PopsDeep (deepDepth pops) pops := fun p hp => ⟨(h p hp).1, (h p hp).2, deepCov_of_deepDepth pops p hp⟩
+  have hA : ∀ a ∈ axesOf pops, AxisOk a := by
+    rw [← deepPairs_fst]; exact pairE_ok1 _ _ (deepPairs_okE _ (by omega) pops hdeep)
+  have hpnc := pops_pnc_le_sharp _ hD pops hdeep
+  have := C18_deep_coverage_entrywise pops h hD thr 0 (le_refl _) model sim hcorner j hj (by
+    intro i hi hm hu
+    exfalso
+    have hle := pncND_le _ (by positivity) (axesOf pops) hA hpnc i hi (fun hall => hm (hcorner i hall))
+    have : ¬ (pncND (axesOf pops) i > thr) := not_lt.mpr (le_trans hle hthr)
+    simp [Gen.LowPass.useSim, this] at hu)
+  simpa using this
+
+example : deepEntryBound [⟨[0, 0, 0, 0, 0, 0, 1/2, 1/2], 6, 4, 1/5⟩, ⟨[0, 0, 0, 0, 0, 0, 0, 1], 4, 2, 0⟩] = 13/64 := by
+  decide +kernel
 
 /-! ## round 5: the simulated regime -/
 
